@@ -7,9 +7,9 @@ import session_gen as G
 ID = 'C17'
 COQ_TARGETS = ['Props/Properties_C17.vo']
 PROPS_FILES = ['Props/Properties_C17.v']
-THEOREMS = ['C17_no_cleartext_at_switch', 'C17_pending_cleartext_never_switches', 'C17_reset_after_switch',
-            'C17_mail_needs_new_greeting', 'C17_handoff_after_switch', 'C17_refused', 'C17_not_offered',
-            'C17_failed_handshake', 'C17_tls_only_by_switch', 'C17_shape', 'C17_starttls_row']
+THEOREMS = ['C17_no_cleartext_at_switch', 'C17_pending_cleartext_never_switches', 'C17_after_switch_only_tls_input',
+            'C17_reset_after_switch', 'C17_mail_needs_new_greeting', 'C17_handoff_after_switch', 'C17_ready_only_if', 'C17_refused',
+            'C17_not_offered', 'C17_failed_handshake', 'C17_tls_only_by_switch', 'C17_shape', 'C17_starttls_row']
 ENGINES = [dict(name='tlssession', runner='tlssession/runner.py', extract='Extract/Extract_tlssession.v', driver='tls_driver.ml',
                 glue=('glue.ml', 'glue_z.ml'), accepts=lambda c: c.startswith('7e '))]
 SHRINK_FROM = 2      # never shrink the configuration field
